@@ -13,8 +13,3 @@ func (verifSymSink) I64(name string, v int64)    { verif_emit(name, v) }
 func (verifSymSink) Bool(name string, v bool)    { verif_emit(name, v) }
 func (verifSymSink) Str(name string, v string)   { verif_emit(name, v) }
 
-func Verif_CONF_run() {
-	verifNewWorld()
-	verifConfCases(verifSymSink{}, verifLogger{})
-	verif_reach("conformance cases emitted")
-}
